@@ -38,6 +38,16 @@ def conv(ty, v):
     """(ok, value) — what a conforming conversion of v to ty is; ok=False when v has no int/str reading."""
     if ty is None:
         return True, v
+    if ":" in ty:
+        base, cons = ty.split(":")
+        ok, c = conv(base, v)
+        if not ok:
+            return False, None
+        if cons == "ge0" and not c >= 0:
+            return False, None
+        if cons == "max3" and not len(c) <= 3:
+            return False, None
+        return True, c
     if STRICT[0] and ((ty == "int" and not isinstance(v, int)) or (ty == "str" and not isinstance(v, str))):
         return False, None
     if ty == "int":
@@ -45,7 +55,7 @@ def conv(ty, v):
             return False, None
         if isinstance(v, int):
             return True, v
-        if isinstance(v, str) and v.isascii() and v.isdigit():
+        if isinstance(v, str) and v.isascii() and (v.isdigit() or (v[:1] == "-" and v[1:].isdigit())):
             return True, int(v)
         return False, None
     if ty == "str":
@@ -65,13 +75,16 @@ def lit(v):
     return repr(v)
 
 
-def param_default_src(p):
-    """source of the `= ...` part, or None"""
-    has_param = p.get("alias") or p.get("alias_from") or p.get("ci") is not None or p.get("use_param")
-    if not has_param:
-        return lit(p["default"]["v"]) if p.get("default") else None
+CONS_SRC = {"ge0": "ge=0", "max3": "max_length=3"}
+
+
+def has_param(p):
+    return bool(p.get("alias") or p.get("alias_from") or p.get("ci") is not None or p.get("use_param") or p.get("cons"))
+
+
+def param_settings_src(p, with_default):
     parts = []
-    if p.get("default"):
+    if with_default and p.get("default"):
         parts.append(lit(p["default"]["v"]))
     if p.get("alias"):
         parts.append(f"alias={p['alias']!r}")
@@ -79,7 +92,48 @@ def param_default_src(p):
         parts.append(f"alias_from={list(p['alias_from'])!r}")
     if p.get("ci") is not None:
         parts.append(f"case_insensitive={bool(p['ci'])!r}")
+    if p.get("cons"):
+        parts.append(CONS_SRC[p["cons"]])
     return "Param(" + ", ".join(parts) + ")"
+
+
+def attach_of(p):
+    """how the Param is attached: as the default value, or inside Annotated[...] (first, after a doc string, nested)"""
+    return p.get("attach") if has_param(p) and p.get("ann") else None
+
+
+def param_default_src(p):
+    """source of the `= ...` part, or None"""
+    if not has_param(p) or attach_of(p):
+        return lit(p["default"]["v"]) if p.get("default") else None
+    return param_settings_src(p, True)
+
+
+def param_ann_src(p):
+    a = attach_of(p)
+    if not a:
+        return p["ann"]
+    prm = param_settings_src(p, False)
+    if a == "annotated":
+        return f"typing.Annotated[{p['ann']}, {prm}]"
+    if a == "annotated_doc":
+        return f"typing.Annotated[{p['ann']}, 'doc', {prm}]"
+    if a == "annotated_docs":
+        return f"typing.Annotated[{p['ann']}, 'doc', 7, {prm}, 'more']"
+    if a == "nested":
+        return f"typing.Annotated[typing.Annotated[{p['ann']}, 'doc'], {prm}]"
+    raise ValueError(a)
+
+
+META = {"annotated": ["param"], "annotated_doc": ["doc", "param"], "annotated_docs": ["doc", "doc", "param", "doc"],
+        "nested": ["doc", "param"]}
+
+
+def ann_id(p):
+    """the type id the oracle / model convert to: the annotation plus the constraint its Param carries"""
+    if not p.get("ann"):
+        return None
+    return p["ann"] + (":" + p["cons"] if p.get("cons") and p["kind"] in ("po", "pk", "ko") else "")
 
 
 def sig_src(params, first=None):
@@ -98,7 +152,7 @@ def sig_src(params, first=None):
             star_done = True
         s = {"vp": "*", "vk": "**"}.get(k, "") + p["name"]
         if p.get("ann"):
-            s += ": " + p["ann"]
+            s += ": " + (param_ann_src(p) if k in ("po", "pk", "ko") else p["ann"])
         d = param_default_src(p) if k in ("po", "pk", "ko") else None
         if d is not None:
             s += " = " + d
@@ -525,7 +579,7 @@ def expected(case):
     for p in case["params"]:
         n = p["name"]
         v = bound[n]
-        ty = p.get("ann")
+        ty = ann_id(p)
         if p["kind"] == "vp":
             vs = []
             for x in v:
@@ -654,6 +708,15 @@ def gen_value(rng, ty, bad=0.06):
     return rng.choice(ANY)
 
 
+def gen_pvalue(rng, p):
+    """a value for parameter p: mostly conforming; a constrained parameter also gets values that violate the constraint"""
+    if p.get("cons") == "ge0" and has_param(p) and rng.random() < 0.3:
+        return rng.choice([-1, "-2", -7])
+    if p.get("cons") == "max3" and has_param(p) and rng.random() < 0.3:
+        return rng.choice(["toolong", 12345, "abcd"])
+    return gen_value(rng, p.get("ann"))
+
+
 def gen_sig(rng, maxp=5, settings=True, under=0.25):
     n = rng.randint(0, maxp)
     # choose the kind layout: po* pk* [vp] ko* [vk]
@@ -690,8 +753,14 @@ def gen_sig(rng, maxp=5, settings=True, under=0.25):
             elif seen_default and k != "ko":
                 # Python forbids a non-default positional parameter after a default one
                 p["default"] = {"v": rng.choice([0, 2, 9])}
-            if settings and not und and k in ("pk", "ko", "po") and rng.random() < 0.3:
+            if settings and not und and k in ("pk", "ko", "po") and rng.random() < 0.4:
                 r = rng.random()
+                if p.get("ann") and rng.random() < 0.5:
+                    p["cons"] = "ge0" if p["ann"] == "int" else "max3"
+                if p.get("ann"):
+                    # every way the Param can be attached: `= Param(...)`, Annotated[T, Param], with other metadata in
+                    # front (and behind), nested Annotated
+                    p["attach"] = rng.choice([None, None, "annotated", "annotated_doc", "annotated_docs", "nested"])
                 if r < 0.45 and k != "po":
                     al = rng.choice([a for a in ALIASES if a not in used_alias] or [None])
                     if al:
@@ -706,7 +775,7 @@ def gen_sig(rng, maxp=5, settings=True, under=0.25):
                         used_alias.update(al)
                 if r > 0.7:
                     p["ci"] = rng.random() < 0.8
-                if not (p.get("alias") or p.get("alias_from") or p.get("ci") is not None):
+                if not has_param(p):
                     p["use_param"] = True
             if k in ("po", "pk"):
                 if syn_default and not p.get("default") and param_default_src(p) is None:
@@ -716,6 +785,7 @@ def gen_sig(rng, maxp=5, settings=True, under=0.25):
                         seen_default = True
                     else:
                         p["use_param"] = True
+                        p["attach"] = None         # the Param has to be the `= ...` part here
                 if param_default_src(p) is not None:
                     syn_default = True
         params.append(p)
@@ -748,7 +818,7 @@ def gen_call(rng, params, opts, near_miss=0.15):
     npos = rng.randint(must, len(pos)) if pos else 0
     if miss and rng.random() < 0.3 and npos > 0:
         npos -= 1
-    args = [gen_value(rng, p.get("ann")) for p in pos[:npos]]
+    args = [gen_pvalue(rng, p) for p in pos[:npos]]
     if vp and npos == len(pos) and rng.random() < 0.6:
         args += [gen_value(rng, vp.get("ann")) for _ in range(rng.randint(1, 3))]
     elif miss and not vp and rng.random() < 0.3:
@@ -761,7 +831,7 @@ def gen_call(rng, params, opts, near_miss=0.15):
             continue
         if miss and rng.random() < 0.15:
             continue
-        kwargs.append([spell(rng, p, opts), gen_value(rng, p.get("ann"))])
+        kwargs.append([spell(rng, p, opts), gen_pvalue(rng, p)])
     if vk and rng.random() < 0.6:
         for k in rng.sample(["m", "n", "Kx", "_u", "zz"], rng.randint(1, 2)):
             kwargs.append([k, gen_value(rng, vk.get("ann"))])
@@ -778,15 +848,15 @@ def gen_call(rng, params, opts, near_miss=0.15):
     if miss and rng.random() < 0.3 and pos[:npos]:
         p = rng.choice(pos[:npos])
         if p["kind"] == "pk":
-            kwargs.append([spell(rng, p, opts), gen_value(rng, p.get("ann"))])
+            kwargs.append([spell(rng, p, opts), gen_pvalue(rng, p)])
     if miss and rng.random() < 0.2:
         # the same parameter under two spellings
         for p in pos[npos:] + kos:
             if p["kind"] != "po" and len(accepted_names(p, opts)) > 1 and not p["name"].startswith("_"):
                 a, b = accepted_names(p, opts)[:2]
-                v = gen_value(rng, p.get("ann"))
+                v = gen_pvalue(rng, p)
                 kwargs = [kv for kv in kwargs if kv[0] not in accepted_names(p, opts)]
-                kwargs += [[a, v], [b, v if rng.random() < 0.5 else gen_value(rng, p.get("ann"))]]
+                kwargs += [[a, v], [b, v if rng.random() < 0.5 else gen_pvalue(rng, p)]]
                 break
     if miss:
         # in a near-miss a value may land on another parameter than the one it was drawn for; '' is the one value whose
@@ -875,7 +945,7 @@ def gen_focus_case(rng):
         npos = sum(p["kind"] in ("po", "pk") for p in params)
         must = 1 if params[0]["name"] == "a" else 0
         n = rng.randint(must, npos)
-        args = [gen_value(rng, p.get("ann")) for p in params[:n]]
+        args = [gen_pvalue(rng, p) for p in params[:n]]
         kwargs = [["d", enc(gen_value(rng, "int"))]] if any(p["name"] == "d" for p in params) and rng.random() < 0.5 else []
         args = [enc(a) for a in args]
     else:
@@ -1196,9 +1266,16 @@ CTX_FLAGS = {
 SELF = {"o": "self"}
 
 
+def model_param(p):
+    q = dict(p, py_default=p["kind"] in ("po", "pk", "ko") and param_default_src(p) is not None)
+    if attach_of(p):
+        q["meta"] = META[attach_of(p)]
+    return q
+
+
 def full_params(case):
     first = FIRST[case.get("ctx", "func")]
-    ps = [dict(p, py_default=p["kind"] in ("po", "pk", "ko") and param_default_src(p) is not None) for p in case["params"]]
+    ps = [model_param(p) for p in case["params"]]
     return ([{"name": first, "kind": "pk"}] if first else []) + ps
 
 
@@ -1238,9 +1315,11 @@ SHAPES = {
            {"name": "_x", "default": {"v": 9}}],
     "pk": [{"name": "b", "ann": "int"}, {"name": "b", "ann": "int", "default": {"v": 2}},
            {"name": "b", "ann": "int", "default": {"v": 2}, "alias": "B1"},
-           {"name": "d", "ann": "int", "default": {"v": 4}, "ci": True}, {"name": "_y", "default": {"v": 9}}],
+           {"name": "d", "ann": "int", "default": {"v": 4}, "ci": True}, {"name": "_y", "default": {"v": 9}},
+           {"name": "g", "ann": "int", "default": {"v": 6}, "alias_from": ["G2"], "cons": "ge0", "attach": "annotated_doc"}],
     "vp": [{"name": "r", "ann": "int"}, {"name": "r"}],
-    "ko": [{"name": "c", "ann": "int"}, {"name": "c", "default": {"v": 2}}, {"name": "_z", "default": {"v": 9}}],
+    "ko": [{"name": "c", "ann": "int"}, {"name": "c", "default": {"v": 2}}, {"name": "_z", "default": {"v": 9}},
+           {"name": "h", "ann": "int", "alias": "H1", "cons": "ge0", "attach": "nested"}],
     "vk": [{"name": "k", "ann": "int"}],
 }
 
@@ -1278,7 +1357,7 @@ def exhaustive_cases():
         keys = []
         for p in params:
             if p["kind"] in ("pk", "ko"):
-                keys.append(p.get("alias") or (p["name"].upper() if p.get("ci") else p["name"]))
+                keys.append(p.get("alias") or (p.get("alias_from") or [None])[0] or (p["name"].upper() if p.get("ci") else p["name"]))
             elif p["kind"] == "po" and any(q["kind"] == "vk" for q in params):
                 keys.append(p["name"])
         keys.append("zz")
@@ -1286,7 +1365,7 @@ def exhaustive_cases():
             for first_bad in ((False, True) if n else (False,)):
                 args = [enc("x" if (first_bad and i == 0) else str(3 + i)) for i in range(n)]
                 for mask in range(1 << len(keys)):
-                    kwargs = [[k, enc(7 + j)] for j, k in enumerate(keys) if mask >> j & 1]
+                    kwargs = [[k, enc(7 + j if (j + n) % 3 else -1 - j)] for j, k in enumerate(keys) if mask >> j & 1]
                     for dfs in (False, True):
                         cases.append({"kind": "bind", "params": params, "ctx": "func", "wrapper": "sync", "eager": False,
                                       "options": {"data_first_search": dfs}, "retval": {"v": 1}, "args": args,
@@ -1337,7 +1416,7 @@ class C08(Check):
         bound = FIRST[ctx] is not None
         line = {"kind": "bind", "params": full_params(case), "ctx": CTX_FLAGS[ctx], "options": case.get("options") or {},
                 "args": ([SELF] if bound else []) + case["args"], "kwargs": case["kwargs"],
-                "spec_params": case["params"], "spec_args": case["args"], "ret": case.get("ret")}
+                "spec_params": [model_param(p) for p in case["params"]], "spec_args": case["args"], "ret": case.get("ret")}
         if case.get("retval") and case.get("wrapper", "sync") in ("sync", "coro"):
             line["retval"] = enc(case["retval"]["v"])
         return line
